@@ -60,7 +60,11 @@ def structural(program, circuit, r: R, tag=''):
                 sym = next(it['sym'] for it in program['items'] if it.get('name') == c.id)
                 r.fail(f'terminal-mapping{tag}[{sym}]', f'{c.id!r} terminal {pos}: drawn node already known as {cls2lab[k]!r}, translated as {lab!r}')
     for k, name in labels.items():
-        if name is not None and k in cls2lab and cls2lab[k] != name:
+        if isinstance(name, tuple):
+            r.cls('label-on-the-ground-net')
+            if k in cls2lab and cls2lab[k] not in name:
+                r.fail(f'node-label{tag}', f'node carries the names {name!r} but is translated as {cls2lab[k]!r}')
+        elif name is not None and k in cls2lab and cls2lab[k] != name:
             r.fail(f'node-label{tag}', f'node carries the label {name!r} but is translated as {cls2lab[k]!r}')
     gcomp = [c for c in circuit.components if c.type == 'ground']
     has_ground = any(it['sym'] == 'ground' for it in program['items'])
